@@ -159,6 +159,17 @@ def requiredOf : Fields → List String
   | .cons name ty dflt rest => if dflt || ty.isOpt then requiredOf rest else name :: requiredOf rest
 end
 
+/-- The schema at the *root* of a body or response.  `gen_openapi` takes it from
+`subschema_for::<T>()` and converts it directly; the `RemoveRefSiblings`
+visitor only runs over the named definitions.  So `Option<T>` for a
+referenceable `T` is `{ "$ref": T, "nullable": true }` there, of which the
+converter keeps the bare `$ref`: with references inlined, the schema of `T`
+itself — `null` is no longer admitted (finding K8).  Everything else is as in
+`schemaOf`. -/
+def rootSchemaOf : Ty → JS
+  | .opt t => if t.isRef then schemaOf t else schemaOf (.opt t)
+  | t => schemaOf t
+
 /-! ## What serde accepts -/
 
 /-- decoded values (shape only). -/
@@ -372,6 +383,14 @@ structure Response where
 with `content-type: application/json`, or no body and no content type. -/
 def respond (k : Kind) (body : J) : Response :=
   if k.hasBody then ⟨k.status, some "application/json", some body⟩ else ⟨k.status, none, none⟩
+
+/-- a response of kind `k` from an endpoint whose declared header struct is
+`hdr` (`HttpResponseHeaders<_, H>`): when `to_map` cannot serialise `H` the
+handler's result is turned into a 500. -/
+def respondH (hdr : Option Fields) (k : Kind) (body : J) : Response :=
+  match hdr with
+  | some fs => if headersSerialisable fs then respond k body else ⟨500, some "application/json", none⟩
+  | none => respond k body
 
 structure DocResponse where
   status : Nat
